@@ -81,3 +81,44 @@ func JudgeCRC(x []byte) CRCVerdict {
 	}
 	return v
 }
+
+// FixCRCs returns a copy of x in which every block that declares CRC type 1 or 2 and carries a CRC element of the
+// declared width holds the bitwise-computed value over the block as received (CRC element zeroed). Bytes that cannot
+// be delimited are returned unchanged. Used to let byte-level mutation (fuzzing) get past the checksums, so that the
+// parser's structural code is reached with mutated content.
+func FixCRCs(x []byte) []byte {
+	blocks, err := WalkBundle(x)
+	if (err != nil && err != errTrailing) || len(blocks) == 0 {
+		return x
+	}
+	out := bytes.Clone(x)
+	for i, s := range blocks {
+		items, err := ArrayItems(out, s)
+		if err != nil {
+			continue
+		}
+		crcIdx := 3
+		ok := len(items) == 6
+		if i == 0 {
+			crcIdx = 2
+			ok = len(items) == 9 || len(items) == 11
+		}
+		if !ok {
+			continue
+		}
+		typ, isU := UIntAt(out, items[crcIdx])
+		if !isU || (typ != 1 && typ != 2) {
+			continue
+		}
+		cs, isB := BytesAt(out, items[len(items)-1])
+		if !isB || cs.End-cs.Start != CRCLen(typ) {
+			continue
+		}
+		blk := bytes.Clone(out[s.Start:s.End])
+		for k := cs.Start; k < cs.End; k++ {
+			blk[k-s.Start] = 0
+		}
+		copy(out[cs.Start:cs.End], CRCBytes(typ, blk))
+	}
+	return out
+}
